@@ -1,6 +1,6 @@
 (* C05 — bridge prophecies need the whitelisted-power threshold and are final. *)
 From Coq Require Import ZArith List Bool Permutation Lia.
-From Sif Require Import Base.Outcome Base.Store Base.Bank Model.Bridge Proofs.BridgeProofs Gen.Consts.
+From Sif Require Import Base.Outcome Base.Store Base.Bank Model.Bridge Proofs.BridgeProofs Proofs.BridgeOrder Gen.Consts.
 Import ListNotations.
 Local Open Scope Z_scope.
 
@@ -58,3 +58,50 @@ Theorem C05_order_independent_partial : forall s l1 l2 pr,
    pr_final (process_completion s l1 pr) = pr_final (process_completion s l2 pr)).
 Proof. exact completion_order_independent. Qed.
 Print Assumptions C05_order_independent_partial.
+
+(* ... and that hypothesis is an invariant: every stored prophecy lists a validator under at most one claim content
+   (kept by every claim transaction), so with a staking set that is a map with non-negative powers the whole result
+   of a claim transaction — new state, prophecy, status, final claim, balances — is the same for any two orders *)
+Theorem C05_order_independent : forall s perm1 perm2 pid val cid ct,
+  is_order perm1 -> is_order perm2 -> staking_wf s -> prophecies_inv s ->
+  create_claim s perm1 pid val cid ct = create_claim s perm2 pid val cid ct.
+Proof. exact create_claim_order_free. Qed.
+Print Assumptions C05_order_independent.
+
+Theorem C05_claims_bounded_by_total : forall s pr, staking_wf s -> claims_inv pr -> claims_total s (pr_claims pr) <= total_power s.
+Proof. intros s pr Hw Hc. exact (claims_inv_bound s pr Hw (proj1 Hc)). Qed.
+Print Assumptions C05_claims_bounded_by_total.
+
+(* over histories: claims (several prophecies in flight, any contents), whitelist additions and removals, and
+   arbitrary changes of the staking set in between; premise on the first state only *)
+Theorem C05_history_order_independent : forall perm1 perm2 es s,
+  is_order perm1 -> is_order perm2 -> bridge_inv s -> evs_wf es ->
+  bridge_run perm1 s es = bridge_run perm2 s es /\ bridge_inv (fst (bridge_run perm1 s es)).
+Proof. intros perm1 perm2 es s H1 H2 Hi He. split; [exact (bridge_run_order_free perm1 perm2 es H1 H2 s Hi He)|exact (bridge_run_inv perm1 es s Hi He)]. Qed.
+Print Assumptions C05_history_order_independent.
+
+Theorem C05_initial : forall s, staking_wf s -> br_prophecies s = [] -> bridge_inv s.
+Proof. exact bridge_inv_initial. Qed.
+Print Assumptions C05_initial.
+
+(* non-vacuity: three validators 30/45/25, two contents, a removal from the whitelist in between; the second content
+   reaches 70 of the remaining 70 and the event is credited at the last step, under both orders *)
+Definition ex_bridge : bridge_state :=
+  mkBridge (mkBank [] []) [] [1; 2; 3] [(1, (30, true)); (2, (45, true)); (3, (25, true))] [] [] [] false [] None 9 [9].
+Definition ex_events : list bridge_ev :=
+  [EvClaim (mkClaimMsg 7 1 100 (mkContent 50 10 1 1)); EvClaim (mkClaimMsg 7 2 101 (mkContent 51 10 1 1));
+   EvWhitelist 9 1 false; EvClaim (mkClaimMsg 7 3 101 (mkContent 51 10 1 1))].
+Example C05_history_example :
+  bridge_inv ex_bridge /\ evs_wf ex_events /\ is_order (fun l => l) /\ is_order (@rev _) /\
+  snd (bridge_run (fun l => l) ex_bridge ex_events) = [None; None; None; Some 7] /\
+  snd (bridge_run (@rev _) ex_bridge ex_events) = [None; None; None; Some 7].
+Proof.
+  split; [apply bridge_inv_initial; [split; [repeat constructor; cbn; intuition lia|repeat constructor; cbn; lia]|reflexivity]|].
+  split; [repeat constructor|]. split; [intros l; reflexivity|]. split; [intros l; symmetry; apply Permutation_rev|].
+  split; vm_compute; reflexivity.
+Qed.
+
+(* the premise is decidable, and Check/Bridge.v evaluates it on the pre- and post-state of every observed transaction *)
+Theorem C05_premise_checked : forall s, bridge_inv_b s = true -> bridge_inv s.
+Proof. exact bridge_inv_b_sound. Qed.
+Print Assumptions C05_premise_checked.
